@@ -196,8 +196,10 @@ StepEq ==
   /\ ~TaintedEv
   /\ e.op \in {"eq", "ne"}
   /\ LET same == SameContents(abs[e.q], abs[e.o])
+         \* twin: a source and its clone after the same operations on both - they must still be equal
          tags == IF e.panic = 1 THEN {"panic"}
-                 ELSE T(e.ret = (IF e.op = "eq" THEN same ELSE ~same), "eq") IN
+                 ELSE T(e.ret = (IF e.op = "eq" THEN same ELSE ~same), "eq")
+                      \cup (IF "twin" \in DOMAIN e /\ e.twin THEN T(e.ret = (e.op = "eq"), "clone_diverged") ELSE {}) IN
      Report(tags, e.kind)
   /\ UNCHANGED <<abs, con, ord, taint>>
 
